@@ -273,6 +273,8 @@ fn second_opinion(d: &Decoded, r: &Response, cols: &[ColSpec], rows: &[RowProg])
     use mysql_common::value::{ServerSide, Value as MyValue};
     let msgs = &d.msgs[r.first_msg..r.first_msg + r.n_msgs];
     let n = cols.len();
+    // (rows the shim gave up before writing anything are not part of the response)
+    let rows: Vec<&RowProg> = rows.iter().filter(|r| !r.cells.is_empty()).collect();
     if msgs.len() < 1 + n + 1 + rows.len() + 1 {
         return Err("response shorter than header + rows".into());
     }
@@ -282,7 +284,7 @@ fn second_opinion(d: &Decoded, r: &Response, cols: &[ColSpec], rows: &[RowProg])
         mycols.push(MyColumn::deserialize((), &mut buf).map_err(|e| format!("mysql_common rejects column definition {}: {}", i, e))?);
     }
     let mycols: std::sync::Arc<[MyColumn]> = mycols.into();
-    for (ri, (m, wrow)) in msgs[1 + n + 1..].iter().zip(rows).enumerate() {
+    for (ri, (m, wrow)) in msgs[1 + n + 1..].iter().zip(rows.iter()).enumerate() {
         let mut buf = ParseBuf(&m.payload[..]);
         let row = RowDeserializer::<ServerSide, Binary>::deserialize(mycols.clone(), &mut buf).map_err(|e| format!("mysql_common rejects binary row {}: {}", ri, e))?.into_inner();
         if !buf.is_empty() {
